@@ -282,12 +282,15 @@ def boundsLoop (inv : α) (subBounds : List α) : List α → α → Bool → Na
         let r ← boundsLoop inv subBounds rest b nv (i + 1)
         return sb :: r
 
+/-- the classes of `updateDistribution()`: `p` on the invariant, `(1 - p) · prob` added on every
+class value of the nested distribution -/
+def classes (s : InvarSt α) : TMap α :=
+  (s.sub.top.cats.zip s.sub.top.probs).foldl (fun m cp => TMap.addTo s.top.prec cp.1 ((Scalar.one - s.p) * cp.2) m) [(s.inv, s.p)]
+
 /-- `updateDistribution()` (repaired: flags not negated, invariant included, probabilities added) -/
 def update (s : InvarSt α) : InvarSt α × Option Err :=
   let sd := s.sub.top
-  let prec := s.top.prec
-  let m0 : TMap α := [(s.inv, s.p)]
-  let m := (sd.cats.zip sd.probs).foldl (fun m cp => TMap.addTo prec cp.1 ((Scalar.one - s.p) * cp.2) m) m0
+  let m := s.classes
   let d0 := (s.top.dom.setLowerBound s.sub.lowerBound (!sd.dom.inclLo)).setUpperBound s.sub.upperBound (!sd.dom.inclHi)
   let d1 := if Scalar.leb s.inv d0.lo then d0.setLowerBound s.inv false else d0
   let d2 := if Scalar.geb s.inv d1.hi then d1.setUpperBound s.inv false else d1
@@ -317,11 +320,17 @@ end InvarSt
 
 namespace MixSt
 /-- `updateDistribution()` (MixtureOfDiscreteDistributions.cpp:146-205) -/
+def zeros (s : MixSt α) : TMap α :=
+  s.subs.foldl (fun m l => l.top.cats.foldl (fun m v => TMap.assign s.top.prec v Scalar.zero m) m) ([] : TMap α)
+
+/-- the classes of `updateDistribution()`: every class value of every component with probability
+0, then `prob · weight` added -/
+def classes (s : MixSt α) : TMap α :=
+  (s.subs.zip s.probas).foldl (fun m lw =>
+    (lw.1.top.cats.zip lw.1.top.probs).foldl (fun m vp => TMap.addTo s.top.prec vp.1 (vp.2 * lw.2) m) m) s.zeros
+
 def update (s : MixSt α) : MixSt α :=
-  let prec := s.top.prec
-  let m0 := s.subs.foldl (fun m l => l.top.cats.foldl (fun m v => TMap.assign prec v Scalar.zero m) m) ([] : TMap α)
-  let m := (s.subs.zip s.probas).foldl (fun m lw =>
-    (lw.1.top.cats.zip lw.1.top.probs).foldl (fun m vp => TMap.addTo prec vp.1 (vp.2 * lw.2) m) m) m0
+  let m := s.classes
   let init : α × α × Bool × Bool := (VERY_BIG, Scalar.zero - VERY_BIG, true, true)
   let r := s.subs.foldl (fun (acc : α × α × Bool × Bool) l =>
     let (lB, uB, slB, suB) := acc
